@@ -170,6 +170,10 @@ def finish(rng, kind, lines):
                        start_managed=rng.random() < 0.35, app_close=rng.choice([0] * 8 + [1, 2]),
                        user=rng.choice([None, None, '', 'us er', 'u|1']), password=rng.choice([None, None, '', 'p w']),
                        init_outcome=rng.choice(['ret'] * 6 + ['provider', 'other', 'type', 'attr']))
+    if end in ('eof', 'error') and chunks and chunks[-1] and rng.random() < 0.35:
+        # the fault hits in the middle of the last line: between CR and LF, before the terminator, inside a token
+        last = lines[chunks[-1][-1]].text
+        sc.tail_cut = rng.choice([k for k in (1, 2, 3, 6) if k < len(last)] or [0])
     # an adapter call that blocks until a later request has been answered and written (needs a free worker)
     if kind == 'meta' and sc.nworkers() >= 2 and end == 'block' and fail_send is None and not sc.app_close and rng.random() < 0.3:
         tmp = ShellScenario(kind, lines, chunks)
@@ -220,7 +224,7 @@ def scenario_from_json(d):
     h = d['handler']
     sc = ShellScenario(d['kind'], lines, d['chunks'], pool=d['pool'], cpu=d['cpu'], handler=tuple(h) if h is not None else None, end=d['end'],
                        fail_send=d['fail_send'], start_managed=d['start_managed'], app_close=d['app_close'], user=d['user'], password=d['password'],
-                       init_outcome=d['init_outcome'], gate=tuple(d['gate']) if d.get('gate') else None)
+                       init_outcome=d['init_outcome'], gate=tuple(d['gate']) if d.get('gate') else None, tail_cut=d.get('tail_cut', 0))
     return sc
 
 
